@@ -37,7 +37,7 @@ var (
 	repo     = flag.String("repo", "/repo", "taskctl working tree")
 	out      = flag.String("out", "", "output directory (outside /repo)")
 	rtDir    = flag.String("rt", "/verif/rt/vrt", "vrt runtime sources")
-	pkgsFlag = flag.String("pkgs", "pkg/scheduler,pkg/runner,pkg/executor,pkg/output,pkg/variables,internal/watch", "packages to instrument (relative to repo)")
+	pkgsFlag = flag.String("pkgs", "pkg/scheduler,pkg/runner,pkg/executor,pkg/output,pkg/variables,pkg/task,pkg/utils,internal/watch,internal/config", "packages to instrument (relative to repo)")
 	execShim = flag.String("execshim", "pkg/scheduler", "packages whose os/exec import is replaced by vexec")
 	noInst   = flag.Bool("noinst", false, "do not rewrite packages (overlay only adds virtual packages)")
 	virt     multi // srcdir=relative/virtual/dir
